@@ -560,6 +560,73 @@ def check_match_record(cx: Cx, ob: Ob) -> None:
                 ob.violate(fn.qualname, fn.where, f"comparison external.{a[1]} ~ record.{b[1]} does not use the caller's case_sensitive", detail=f"case:{a[1]}~{b[1]}")
         else:
             ob.violate(fn.qualname, fn.where, f"comparison external.{a[1]} ~ record.{b[1]} uses `{how}` and ignores case_sensitive", detail=f"raw-compare:{a[1]}~{b[1]}")
+    # "normalise once, then test membership":  n(x) in {n(y) for y in <names of the other record>}  with n the
+    # identity (case-sensitive path) or str.casefold (case-insensitive path) on BOTH sides
+    def norm_of(t):
+        """(normaliser, inner term): 'id' | 'fold' | 'weak'"""
+        if op(t) == "call" and t[1] == ("builtin", "str") and len(t[2]) == 1:
+            return "id", t[2][0]
+        if op(t) == "call" and t[1] == ("attr", ("builtin", "str"), "casefold") and len(t[2]) == 1:
+            return "fold", t[2][0]
+        if op(t) == "call" and op(t[1]) == "attr" and t[1][2] == "casefold" and not t[2]:
+            return "fold", t[1][1]
+        if op(t) == "call" and op(t[1]) == "attr" and t[1][2] in ("lower", "upper") and not t[2]:
+            return "weak", t[1][1]
+        return "id", t
+
+    def flag_on(ctx):
+        for g in ctx.guards:
+            if g.kind == "guard" and g.a == ("param", "case_sensitive"):
+                return g.b
+        return None
+
+    used_helpers = any(how in ("_eq", "_in") for _, _, how, _ in comps)
+    for ev, ctx in s.walk():
+        if not (ctx.loops and ctx.loops[0] in rec_loops):
+            continue
+        recv = ctx.loops[0].a
+        for t in (ev.a, ev.b):
+            if not isinstance(t, tuple):
+                continue
+            for c in subterms(t):
+                if not (op(c) == "cmp" and c[1] == "in"):
+                    continue
+                n1, x = norm_of(c[2])
+                cont = c[3]
+                if op(cont) == "new" and len(cont) > 4:
+                    cont = cont[4]
+                if not (op(cont) == "comp" and cont[1] in ("set", "list", "gen") and len(cont[3]) == 1 and not cont[3][0][2]):
+                    continue
+                ytgt, ysrc, _ = cont[3][0]
+                n2, y = norm_of(cont[2])
+                if y != ytgt:
+                    continue
+                prov.add_binding(ytgt, ysrc)
+                fx, fy = prov.fields(x), prov.fields(y)
+                if not fx or not fy or any(r == "?" for r, _ in fx | fy):
+                    continue
+                flag = flag_on(ctx)
+                for (ra, fa) in fx:
+                    for (rb, fb) in fy:
+                        a, b = ((ra, fa), (rb, fb)) if ra == ext else ((rb, fb), (ra, fa))
+                        if a[0] != ext or b[0] != recv:
+                            continue
+                        seen.add((a[1], b[1]))
+                        ob.site(f"{fn.where} {fn.qualname}", f"compare external.{a[1]} ~ record.{b[1]} via normalised membership ({n1}/{n2}, case_sensitive={flag})")
+                        if n1 != n2:
+                            ob.violate(
+                                fn.qualname,
+                                where(fn, ev.line),
+                                f"comparison external.{a[1]} ~ record.{b[1]} normalises one side only (`{show(c)[:70]}`): with case_sensitive=False a name containing an upper-case letter no longer matches even an identical copy of itself",
+                                witness="existing URI prefix 'http://purl.obolibrary.org/obo/CHEBI_', incoming record with the same URI prefix, case_sensitive=False: no match, the record is appended and the URI prefix has two owners",
+                                detail=f"half-folded:{a[1]}~{b[1]}",
+                            )
+                        elif "weak" in (n1, n2):
+                            ob.undecide("_match_record folds with lower()/upper(), which is not case folding")
+                        elif flag is None:
+                            ob.violate(fn.qualname, fn.where, f"comparison external.{a[1]} ~ record.{b[1]} uses `{'raw' if n1 == 'id' else 'case-folded'}` membership and ignores case_sensitive", detail=f"raw-compare:{a[1]}~{b[1]}")
+                        elif (flag is True) != (n1 == "id"):
+                            ob.violate(fn.qualname, fn.where, f"comparison external.{a[1]} ~ record.{b[1]} is {'case-folded' if n1 == 'fold' else 'raw'} on the path where case_sensitive is {flag}", detail=f"case:{a[1]}~{b[1]}")
     # comparisons delegated to a helper the engine does not see through (generator, loop-with-return)
     from ..summ import KNOWN_FUNCTIONS
 
@@ -593,7 +660,8 @@ def check_match_record(cx: Cx, ob: Ob) -> None:
     for a, b in sorted(cross):
         ob.violate(fn.qualname, fn.where, f"_match_record compares external.{a} with record.{b} across sides", detail=f"cross-side:{a}~{b}")
     # helper semantics: decision table over (raw equality E, case-folded equality F, flag C), E => F
-    check_compare_helpers(cx, ob)
+    if used_helpers or any(cx.model.functions.get(f"{API}.{n}") is not None for n in ("_eq", "_in")):
+        check_compare_helpers(cx, ob)
 
 
 def _fold_of(t, x):
